@@ -39,20 +39,37 @@ def lenAggregated (p : Params) (aus : List Bytes) (add : Option Bytes) : Nat :=
   2 + ceil8 (hdrBitsLen p (aus.length + (if add.isSome then 1 else 0)))
     + totalLen aus + (match add with | some a => a.length | none => 0)
 
-/-- the AU-header bits `writeAggregated` writes: size, then a zero index / index-delta -/
+/-- SPECIFICATION of the AU-headers section as a bit string: per AU its size, then a zero index /
+index-delta (`Proofs.Codec.Mpeg4Audio.hdrBytes_eq_pack`: for sizes below `2^SizeLength` the bytes the
+Go loop writes are exactly these bits, packed) -/
 def auHeaders (p : Params) : Bool → List Bytes → List Bool
   | _, [] => []
   | first, au :: rest =>
     bitsOf au.length p.sl ++ List.replicate (if first then p.il else p.dl) false ++ auHeaders p false rest
 
+/-- the AU-header loop of `writeAggregated` (and the two calls of `writeFragmented`):
+`bits.WriteBitsUnsafe(payload[2:], &pos, uint64(len(au)), SizeLength)` then
+`bits.WriteBitsUnsafe(payload[2:], &pos, 0, IndexLength | IndexDeltaLength)` -/
+def writeHeadersGo (p : Params) : Bool → List Bytes → Bytes → Nat → Bytes × Nat
+  | _, [], buf, pos => (buf, pos)
+  | first, au :: rest, buf, pos =>
+    let r1 := writeBitsGo buf pos au.length p.sl
+    let r2 := writeBitsGo r1.1 r1.2 0 (if first then p.il else p.dl)
+    writeHeadersGo p false rest r2.1 r2.2
+
+/-- the AU-headers section of a payload: `make([]byte, …)` (zeros), then the header loop.  (Go
+writes into `payload[2:]`, which also has room for the AUs; the loop only touches the
+`⌈bits/8⌉` header bytes modelled here.) -/
+def hdrBytes (p : Params) (aus : List Bytes) : Bytes :=
+  (writeHeadersGo p true aus (List.replicate (ceil8 (hdrBitsLen p aus.length)) 0) 0).1
+
 def writeAggregated (c : EncCfg) (p : Params) (aus : List Bytes) (ts : UInt32) (sq : UInt16) : List Pkt :=
-  let hdr := auHeaders p true aus
   [{ pt := c.pt, seq := sq, ts := ts, ssrc := c.ssrc, marker := true,
-     payload := be16 hdr.length ++ pack hdr ++ aus.flatten }]
+     payload := be16 (hdrBitsLen p aus.length) ++ hdrBytes p aus ++ aus.flatten }]
 
 /-- one fragment: AU-headers-length, one AU header declaring `le` bytes, the bytes -/
 def fragPayload (p : Params) (chunk : Bytes) : Bytes :=
-  be16 (p.sl + p.il) ++ pack (bitsOf chunk.length p.sl ++ List.replicate p.il false) ++ chunk
+  be16 (p.sl + p.il) ++ hdrBytes p [chunk] ++ chunk
 
 /-- the `for i := range ret` loop of `writeFragmented`: `n` packets still to emit -/
 def emitFrag (c : EncCfg) (p : Params) (ts : UInt32) (avail : Nat) : Nat → UInt16 → Bytes → List Pkt
